@@ -78,13 +78,38 @@ def _nbr_stack(x):
 
 def logp_with_sensitivity(d, x, cond=None):
     """(log_prob(x), max change of log_prob over the one-ulp neighbours of x) from one batched call."""
+    v, s = logps_with_sensitivity(d, [x], cond)
+    return v[0], s[0]
+
+
+def logps_with_sensitivity(d, xs, cond=None):
+    """For each x of xs: log_prob(x) and the max change of log_prob over the one-ulp neighbours of x; ONE batched call."""
     jnp = lv.lib()["jnp"]
-    X = _nbr_stack(x)
-    lps = np.asarray(d.log_prob(jnp.asarray(X), cond), dtype=float)
-    v = float(lps[0])
-    diffs = np.abs(lps[1:] - lps[0])
-    diffs = diffs[np.isfinite(diffs)]
-    return v, (float(np.max(diffs)) if diffs.size else 0.0)
+    stacks = [_nbr_stack(x) for x in xs]
+    lps = np.asarray(d.log_prob(jnp.asarray(np.concatenate(stacks)), cond), dtype=float)
+    vals, sens, pos = [], [], 0
+    for st in stacks:
+        blk = lps[pos:pos + len(st)]
+        pos += len(st)
+        with np.errstate(invalid="ignore"):
+            diffs = np.abs(blk[1:] - blk[0])
+        diffs = diffs[np.isfinite(diffs)]
+        vals.append(float(blk[0]))
+        sens.append(float(np.max(diffs)) if diffs.size else 0.0)
+    return vals, sens
+
+
+def oracle_logps(d, xs, cond=None):
+    """rhs of the first identity for each x: base_dist.log_prob(bijection.inverse(x)) + inverse log-det through the public
+    methods (vmapped over the points); also returns the inverse log-dets."""
+    L = lv.lib()
+    jnp, jax = L["jnp"], L["jax"]
+    X = jnp.asarray(np.stack([np.asarray(x, dtype=float) for x in xs]))
+    bc = cond if d.bijection.cond_shape is not None else None
+    dc = cond if d.base_dist.cond_shape is not None else None
+    Z, LD = jax.vmap(lambda x: d.bijection.inverse_and_log_det(x, bc))(X)
+    rhs = np.asarray(d.base_dist.log_prob(Z, dc), dtype=float) + np.asarray(LD, dtype=float)
+    return [_to_minf(float(v)) for v in rhs], [float(v) for v in np.asarray(LD, dtype=float)]
 
 
 def _tol(v, sens, rel=1e-9):
